@@ -26,6 +26,6 @@ def step (_ : Unit) (line : String) : Unit × String :=
     | none => ((), "bad-op")
   | _ => ((), "bad-op")
 
-def run : IO Unit := loop step ()
-
 end Ioflo.Drv.Crc
+
+def main : IO Unit := Ioflo.Proto.loop Ioflo.Drv.Crc.step ()
